@@ -224,6 +224,37 @@ func Active() *Run {
 	return r
 }
 
+// CurrentName returns the canonical name of the calling goroutine ("" outside a run).
+func CurrentName() string {
+	r := Active()
+	if r == nil {
+		return ""
+	}
+	r.mu.Lock()
+	defer r.mu.Unlock()
+	return r.nameOf()
+}
+
+// NameGoroutine gives the calling goroutine the canonical name base#k (k counts
+// the goroutines named from this base) unless it has a name already. Simulated
+// components use it where the identity of a goroutine follows from an object
+// with a reproducible identity (simnet: the goroutine serving an accepted
+// connection is named after the dialler), instead of from the order in which
+// sibling goroutines happen to reach their first gate.
+func NameGoroutine(base string) {
+	r := Active()
+	if r == nil {
+		return
+	}
+	id := goid()
+	r.mu.Lock()
+	if _, ok := r.names[id]; !ok {
+		r.children[base]++
+		r.names[id] = fmt.Sprintf("%s#%d", base, r.children[base])
+	}
+	r.mu.Unlock()
+}
+
 // Current returns the current run, also during its wind-down phase.
 func Current() *Run { return cur.Load() }
 
@@ -239,6 +270,15 @@ func Yield(class int, site string) {
 
 func (r *Run) yield(class int, site string) {
 	if r.gates&class == 0 {
+		// not a scheduling point in this run, but the goroutine still gets its
+		// canonical name here: goroutines it starts derive their names from it
+		// (a nameless parent makes its children indistinguishable: "?>f#n")
+		id := goid()
+		r.mu.Lock()
+		if _, ok := r.names[id]; !ok && !r.finished.Load() {
+			r.nameOf()
+		}
+		r.mu.Unlock()
 		return
 	}
 	w := &waiter{ch: make(chan struct{}), site: site}
